@@ -1011,7 +1011,8 @@ def _format_value(value):
   try:
     if parse_value(literal) == value:
       return literal
-  except SyntaxError:
+  except (SyntaxError, ValueError):
+    # Not Gin syntax, or (`ValueError`) a reference to an unknown configurable.
     pass
   return None
 
